@@ -285,7 +285,7 @@ def load_corpus():
 
 def run(ctx):
     quick = ctx.tier == "quick"
-    n_worlds = 250 if quick else 6000
+    n_worlds = 250 if quick else 8000
     per_world = 10 if quick else 40
     n_gen_worlds = 60 if quick else 1500
     per_gen = 2 if quick else 4
